@@ -336,7 +336,7 @@ Qed.
 Lemma addv_length u r : length r = length u -> length (addv u r) = length u.
 Proof. intros H. unfold addv. rewrite map2_length, H. apply Nat.min_id. Qed.
 
-Lemma colmin_shift u : forall rest r0, length r0 = length u -> Forall (fun r => length r = length u) rest ->
+Lemma colmin_shift (u : list Q) : forall rest r0, length r0 = length u -> Forall (fun r => length r = length u) rest ->
   veq (colmin (addv u r0) (map (addv u) rest)) (addv u (colmin r0 rest)).
 Proof.
   unfold colmin. induction rest as [|r1 rest IH]; intros r0 L0 HR; cbn [map fold_left]; [apply veq_refl|].
@@ -353,19 +353,97 @@ Proof.
   cbn [map2]. constructor; [ring | apply IH; lia].
 Qed.
 
-Lemma colmin_length u : forall rest r0, length r0 = length u -> Forall (fun r => length r = length u) rest -> length (colmin r0 rest) = length u.
+Lemma colmin_length (u : list Q) : forall rest r0, length r0 = length u -> Forall (fun r => length r = length u) rest -> length (colmin r0 rest) = length u.
 Proof.
   unfold colmin. induction rest as [|r1 rest IH]; intros r0 L0 HR; cbn [fold_left]; [exact L0|].
   inversion HR as [|? ? L1 HR']; subst. apply IH; [rewrite map2_length, L0, L1; apply Nat.min_id | exact HR'].
 Qed.
 
-Lemma shifted_shift u A : Forall (fun r => length r = length u) A -> meq (shifted (map (addv u) A)) (shifted A).
+Lemma Forall_map2_gen {A C} (P : A -> Prop) (S : C -> C -> Prop) (f g : A -> C) :
+  (forall x, P x -> S (f x) (g x)) -> forall l, Forall P l -> Forall2 S (map f l) (map g l).
+Proof. intros H l F. induction F; cbn; constructor; auto. Qed.
+
+Lemma shifted_shift (u : list Q) A : Forall (fun r => length r = length u) A -> meq (shifted (map (addv u) A)) (shifted A).
 Proof.
-  intros HR. destruct A as [|r0 rest]; [constructor|]. inversion HR as [|? ? L0 HR']; subst. unfold shifted. cbn [map].
-  change (addv u r0 :: map (addv u) rest) with (map (addv u) (r0 :: rest)). rewrite map_map.
-  apply (Forall2_map_gen eq (Forall2 Qeq)) with (l := r0 :: rest) (l' := r0 :: rest).
-  2:{ clear. induction (r0 :: rest); constructor; auto. }
-  intros r r' <-.
-  (* we need the length of r: obtain it from membership instead *)
-  apply veq_refl.
-Abort.
+  intros HR. destruct A as [|r0 rest]; [constructor|]. inversion HR as [|? ? L0 HR']; subst.
+  change (shifted (map (addv u) (r0 :: rest)))
+    with (map (fun r => map2 Qminus r (colmin (addv u r0) (map (addv u) rest))) (map (addv u) (r0 :: rest))).
+  change (shifted (r0 :: rest)) with (map (fun r => map2 Qminus r (colmin r0 rest)) (r0 :: rest)).
+  rewrite map_map.
+  apply (Forall_map2_gen (fun r => length r = length u)); [|exact HR].
+  intros r Lr. eapply veq_trans.
+  - apply map2_compat; [apply Qminus_compat | apply veq_refl | apply colmin_shift; assumption].
+  - apply sub_shift; [exact Lr | now apply colmin_length].
+Qed.
+
+Lemma row_distr : forall r t w, length r = length t -> length t = length w ->
+  veq (map2 Qmult (map2 Qplus r t) w) (addv (map2 Qmult t w) (map2 Qmult r w)).
+Proof.
+  unfold addv. induction r as [|x r IH]; intros [|y t] [|z w] L1 L2; cbn in L1, L2; try discriminate; [constructor|].
+  cbn [map2]. constructor; [ring | apply IH; lia].
+Qed.
+
+Lemma translation_invariant_lemma m guard mat t mulv lin : rectm m mat -> length t = m -> length mulv = m ->
+  tres_eq (trans_body guard (map (fun r => map2 Qplus r t) mat) mulv lin) (trans_body guard mat mulv lin).
+Proof.
+  intros HR Lt Lw. rewrite !trans_body_split. apply tail_compat. rewrite map_map.
+  set (u := map2 Qmult t mulv). assert (Lu : length u = m) by (unfold u; rewrite map2_length, Lt, Lw; apply Nat.min_id).
+  apply meq_trans with (shifted (map (addv u) (map (fun r => map2 Qmult r mulv) mat))).
+  - apply shifted_compat. rewrite map_map. apply (Forall_map2_gen (fun r => length r = m)); [|exact HR].
+    intros r Lr. apply row_distr; congruence.
+  - apply shifted_shift. rewrite Forall_map. eapply Forall_impl; [|exact HR]. cbv beta. intros r Lr.
+    rewrite map2_length, Lr, Lw, Lu. apply Nat.min_id.
+Qed.
+
+Lemma tres_eq_refl a : tres_eq a a.
+Proof. destruct a; cbn; auto. apply veq_refl. Qed.
+
+Lemma translation_invariant_core m mat t minmax pw : rectm m mat -> length t = m -> length minmax = m ->
+  tres_eq (trans_core (map (fun r => map2 Qplus r t) mat) minmax pw) (trans_core mat minmax pw).
+Proof.
+  intros HR Lt Lw. unfold trans_core.
+  destruct (negb (forallb (Qle_bool 0) pw)); [exact I|]. destruct (negb (existsb (Qlt_bool 0) pw)); [exact I|].
+  destruct (negb (Qlt_bool 0 (dotQ pw pw))); [exact I|]. now apply (translation_invariant_lemma m).
+Qed.
+
+(** * the geometric reading of the result *)
+Lemma fold_map2_length (f : Q -> Q -> Q) (n : nat) : forall rest r0, length r0 = n -> Forall (fun r => length r = n) rest ->
+  length (fold_left (map2 f) rest r0) = n.
+Proof.
+  induction rest as [|r1 rest IH]; intros r0 L0 HR; cbn [fold_left]; [exact L0|].
+  pose proof (Forall_inv HR) as L1. pose proof (Forall_inv_tail HR) as HR'. cbv beta in L1.
+  apply IH; [rewrite map2_length, L0, L1; apply Nat.min_id | exact HR'].
+Qed.
+
+Lemma normalised_rect m mat mulv : rectm m mat -> length mulv = m -> Forall (fun p => length p = m) (normalised mat mulv).
+Proof.
+  intros HR Lw. unfold normalised.
+  assert (HA : Forall (fun r => length r = m) (map (fun r => map2 Qmult r mulv) mat)).
+  { rewrite Forall_map. eapply Forall_impl; [|exact HR]. cbv beta. intros r Lr. rewrite map2_length, Lr, Lw. apply Nat.min_id. }
+  destruct (map (fun r => map2 Qmult r mulv) mat) as [|r0 rest]; [constructor|].
+  pose proof (Forall_inv HA) as L0. pose proof (Forall_inv_tail HA) as HA'. cbv beta in L0.
+  assert (Lmn : length (colmin r0 rest) = m) by (apply fold_map2_length; assumption).
+  assert (H2 : Forall (fun r => length r = m) (map (fun r => map2 Qminus r (colmin r0 rest)) (r0 :: rest))).
+  { rewrite Forall_map. eapply Forall_impl; [|exact HA]. cbv beta. intros r Lr. rewrite map2_length, Lr, Lmn. apply Nat.min_id. }
+  destruct (map (fun r => map2 Qminus r (colmin r0 rest)) (r0 :: rest)) as [|s0 srest] eqn:E2; [constructor|].
+  pose proof (Forall_inv H2) as Ls0. pose proof (Forall_inv_tail H2) as H2'. cbv beta in Ls0.
+  assert (Lmx : length (colmax s0 srest) = m) by (apply fold_map2_length; assumption).
+  rewrite Forall_map. eapply Forall_impl; [|exact H2]. cbv beta. intros r Lr. rewrite map2_length, map_length, Lmx, Lr. apply Nat.min_id.
+Qed.
+
+Lemma dist_geometric m mat mulv lin : rectm m mat -> mat <> [] -> length mulv = m -> length lin = m ->
+  Exists (fun x => ~ x == 0) lin ->
+  trans_body true mat mulv lin = TFinite (map (residual2 lin (/ dotQ lin lin)) (normalised mat mulv)) /\
+  length (normalised mat mulv) = length mat /\
+  Forall (fun p => length p = m /\
+                   residual2 lin (/ dotQ lin lin) p == dotQ p p - dotQ p lin * dotQ p lin / dotQ lin lin /\
+                   (forall t, residual2 lin (/ dotQ lin lin) p <= dist2_to lin p t) /\
+                   dotQ (map2 Qminus p (map (fun l => (/ dotQ lin lin * dotQ p lin) * l) lin)) lin == 0)
+         (normalised mat mulv).
+Proof.
+  intros HR Hm Lw Ll HL. assert (H : ~ dotQ lin lin == 0) by (pose proof (dot_self_pos lin HL); lra).
+  split; [now apply trans_body_guarded|]. split; [apply normalised_length|].
+  eapply Forall_impl; [|apply (normalised_rect m); assumption]. cbv beta. intros p Lp.
+  assert (Lpl : length p = length lin) by congruence.
+  split; [exact Lp|]. split; [now apply residual2_closed_form|]. split; [intro t; now apply residual2_minimal | now apply residual_orthogonal].
+Qed.
